@@ -15,6 +15,7 @@ package c30
 import (
 	"crypto/sha256"
 	"encoding/hex"
+	"errors"
 	"fmt"
 	"io"
 	"io/fs"
@@ -22,6 +23,7 @@ import (
 	"path/filepath"
 	"regexp"
 	"sort"
+	"strconv"
 	"strings"
 	"testing"
 
@@ -131,7 +133,7 @@ var hPackage = native.Package{Name: "h", Declarations: native.Declarations{
 	"Point": func(env native.Env, id int) {},
 	"Rec":   func(id int, v any) {},
 	"Call":  func(id int, f func()) { f() },
-	"Err":   func(id int) error { return nil },
+	"Err":   func(id int) error { return errors.New("e" + strconv.Itoa(id)) },
 	"Yes":   func(id int) bool { return true },
 }}
 
@@ -343,7 +345,7 @@ func exec(r *harness.Run) *harness.Violation {
 		if p {
 			// a C04 matter; not judged here
 			r.Count("skipped.build_panicked", 1)
-			r.Logf("build of %s panicked: %v\n%s", src.name, val, stack)
+			r.Logf("build of %s panicked: %v\n%s", src.name, val, harness.FuncsOnly(stack))
 			return nil
 		}
 		refs[i] = a
